@@ -955,3 +955,5 @@ m('C08', 'jtvec: misfit not evaluated first (defect F34)', SIMS,
 m('C08', 'jtvec: layered mode not refused (defect F34)', SIMS,
   "        if self.layered:\n            msg = \"`jtvec` is not implemented for `layered`.\"\n            raise NotImplementedError(msg)\n\n", "",
   'C08.V4.weights')
+m('C19', 'layered: strength handed to empymod as it is (defect F36)', MP,
+  "        'strength': 0,", "        'strength': src.strength,", 'C19.L3.moment')
